@@ -631,8 +631,69 @@ type Model map[string]uint64
 // Eval evaluates t under model m (missing variables read as 0). Arrays are
 // evaluated through ArrModel entries "name[idx]" (missing = 0).
 func Eval(t *Term, m Model) uint64 {
-	memo := make(map[*Term]uint64, 16)
+	// fast path: plain recursion without memo while the term is small as a tree
+	budget := 4000
+	if v, ok := evalFast(t, m, &budget); ok {
+		return v
+	}
+	memo := make(map[*Term]uint64, 64)
 	return eval1(t, m, memo)
+}
+
+func evalFast(t *Term, m Model, budget *int) (uint64, bool) {
+	*budget--
+	if *budget < 0 {
+		return 0, false
+	}
+	switch t.Op {
+	case OpConst:
+		return t.Val, true
+	case OpVar:
+		return mask(t.W, m[t.Name]), true
+	case OpSelect, OpStore, OpArrVar:
+		return 0, false
+	}
+	a0, ok := evalFast(t.Args[0], m, budget)
+	if !ok {
+		return 0, false
+	}
+	switch t.Op {
+	case OpNot:
+		return 1 ^ a0, true
+	case OpAnd:
+		if a0 == 0 {
+			return 0, true
+		}
+		return evalFast(t.Args[1], m, budget)
+	case OpOr:
+		if a0 == 1 {
+			return 1, true
+		}
+		return evalFast(t.Args[1], m, budget)
+	case OpIte:
+		if a0 == 1 {
+			return evalFast(t.Args[1], m, budget)
+		}
+		return evalFast(t.Args[2], m, budget)
+	case OpZExt:
+		return a0, true
+	case OpSExt:
+		return mask(t.W, uint64(sext64(t.Args[0].W, a0))), true
+	case OpExtract:
+		return mask(t.W, a0), true
+	case OpBNot:
+		return mask(t.W, ^a0), true
+	case OpNeg:
+		return mask(t.W, -a0), true
+	}
+	a1, ok := evalFast(t.Args[1], m, budget)
+	if !ok {
+		return 0, false
+	}
+	if t.Op == OpEq {
+		return b2u(a0 == a1), true
+	}
+	return evalBin(t.Op, t.Args[0].W, a0, a1), true
 }
 
 func evalArr(arr *Term, idx uint64, m Model, memo map[*Term]uint64) uint64 {
